@@ -184,6 +184,8 @@ def type_features(mod, t, _seen=None, depth=0):
                 out.add("from.sparse>255")
         if t.ext:
             out.add("ext." + k)
+            if k == "ENUMERATED" and t.ext_named and t.named and min(v for _, v in t.ext_named) < max(v for _, v in t.named):
+                out.add("enum.addition-below-root")
             if k == "SEQUENCE" and not t.members:
                 out.add("seq.empty-ext")
         if t.named and k in ("INTEGER", "BITSTRING"):
